@@ -317,19 +317,12 @@ def intOp (f : Int → Int → Int) (a b : Obj) : E Obj :=
     | some i, some j => pure (.int (f i j))
     | _, _ => throw .TypeError
 
-def op_or (_env : Env) (a b : Obj) : E Obj := intOp intOr a b
-def op_xor (_env : Env) (a b : Obj) : E Obj := intOp intXor a b
-def op_and (_env : Env) (a b : Obj) : E Obj := intOp intAnd a b
 
 def cmpNum (f : Int → Int → Bool) (a b : Obj) : E Obj :=
   match num? a, num? b with
   | some x, some y => pure (.bool (f (x.1 * y.2) (y.1 * x.2)))
   | _, _ => throw .TypeError
 
-def op_lt (_env : Env) (a b : Obj) : E Obj := cmpNum (fun i j => decide (i < j)) a b
-def op_le (_env : Env) (a b : Obj) : E Obj := cmpNum (fun i j => decide (i ≤ j)) a b
-def op_gt (_env : Env) (a b : Obj) : E Obj := cmpNum (fun i j => decide (j < i)) a b
-def op_ge (_env : Env) (a b : Obj) : E Obj := cmpNum (fun i j => decide (j ≤ i)) a b
 
 /-! ### truth, equality, hashing -/
 
@@ -546,6 +539,50 @@ def fs_symmetric_difference (env : Env) (a b : Obj) : E Obj := do
   let r ← filterE (fun e => do pure (!(← fsContains env x e))) y
   pure (.fset (← fsOfList env (l ++ r)))
 
+/-! `|`, `^`, `&` and the order comparisons: integers / numbers, or two frozensets (union, symmetric difference, intersection;
+    sub- and superset) -/
+
+def op_or (env : Env) (a b : Obj) : E Obj :=
+  match a, b with
+  | .fset _, .fset _ => fs_union env a b
+  | _, _ => intOp intOr a b
+
+def op_xor (env : Env) (a b : Obj) : E Obj :=
+  match a, b with
+  | .fset _, .fset _ => fs_symmetric_difference env a b
+  | _, _ => intOp intXor a b
+
+def op_and (env : Env) (a b : Obj) : E Obj :=
+  match a, b with
+  | .fset _, .fset _ => fs_intersection env a b
+  | _, _ => intOp intAnd a b
+
+def op_le (env : Env) (a b : Obj) : E Obj :=
+  match a, b with
+  | .fset x, .fset y => do pure (.bool (← fsSubset env x y))
+  | _, _ => cmpNum (fun i j => decide (i ≤ j)) a b
+
+def op_ge (env : Env) (a b : Obj) : E Obj :=
+  match a, b with
+  | .fset x, .fset y => do pure (.bool (← fsSubset env y x))
+  | _, _ => cmpNum (fun i j => decide (j ≤ i)) a b
+
+def op_lt (env : Env) (a b : Obj) : E Obj :=
+  match a, b with
+  | .fset x, .fset y => do
+    let l ← fsSubset env x y
+    let r ← fsSubset env y x
+    pure (.bool (l && !r))
+  | _, _ => cmpNum (fun i j => decide (i < j)) a b
+
+def op_gt (env : Env) (a b : Obj) : E Obj :=
+  match a, b with
+  | .fset x, .fset y => do
+    let l ← fsSubset env y x
+    let r ← fsSubset env x y
+    pure (.bool (l && !r))
+  | _, _ => cmpNum (fun i j => decide (j < i)) a b
+
 /-- `map(f, it)` -/
 def map_ (env : Env) (f : Obj → E Obj) (it : Obj) : E Obj := do
   let l ← iterToList env it
@@ -562,6 +599,61 @@ def reduce (env : Env) (f : Obj → Obj → E Obj) (it : Obj) : E Obj := do
   match ← iterToList env it with
   | [] => throw .TypeError
   | x :: xs => xs.foldlM f x
+
+/-- `lst.append(v)` on a list that nothing else refers to: the extended list (the translator rebinds the name) -/
+def list_append (_env : Env) (lst v : Obj) : E Obj :=
+  match lst with
+  | .list es => pure (.list (es ++ [v]))
+  | _ => throw .AttributeError
+
+/-- objects of which there is one per value (`None`, `NotImplemented`, `True` / `False`, classes): for them identity is equality -/
+def isSingleton : Obj → Bool
+  | .none | .notImplemented | .bool _ | .cls _ => true
+  | _ => false
+
+/-- `a is b`: decided when one of the operands is a singleton object; the identity of other objects is not a function of
+    their values and stays outside the fragment -/
+def is_ (_env : Env) (a b : Obj) : E Obj :=
+  if isSingleton a || isSingleton b then pure (.bool (a == b)) else throw (.unmodelled "is")
+
+/-- `a is not b` -/
+def is_not (env : Env) (a b : Obj) : E Obj := do
+  let r ← is_ env a b
+  not_ env r
+
+/-- the values of an unpacking assignment `a, b, *c, d = x` (`before` names, an optional starred name that receives a list,
+    `after` names): `ValueError` when the number of elements does not fit -/
+def unpack (env : Env) (x : Obj) (before : Nat) (star : Bool) (after : Nat) : E (List Obj) := do
+  let l ← iterToList env x
+  if star then
+    if l.length < before + after then throw .ValueError
+    else pure (l.take before ++ [.list ((l.drop before).take (l.length - before - after))] ++ l.drop (l.length - after))
+  else if l.length = before then pure l else throw .ValueError
+
+/-- the i-th value of an unpacking -/
+def nth (l : List Obj) (i : Nat) : Obj := l.getD i .none
+
+def anyL (env : Env) (f : Obj → E Obj) : List Obj → E Obj
+  | [] => pure (.bool false)
+  | x :: xs => do
+    let v ← f x
+    if ← truthy env v then pure (.bool true) else anyL env f xs
+
+def allL (env : Env) (f : Obj → E Obj) : List Obj → E Obj
+  | [] => pure (.bool true)
+  | x :: xs => do
+    let v ← f x
+    if ← truthy env v then allL env f xs else pure (.bool false)
+
+/-- `any(f(x) for x in it)`: stops at the first true element (the rest is not evaluated) -/
+def anyM (env : Env) (f : Obj → E Obj) (it : Obj) : E Obj := do
+  let l ← iterToList env it
+  anyL env f l
+
+/-- `all(f(x) for x in it)`: stops at the first false element -/
+def allM (env : Env) (f : Obj → E Obj) (it : Obj) : E Obj := do
+  let l ← iterToList env it
+  allL env f l
 
 /-- `unicodedata.normalize(form, s)`; only the form "NFC" -/
 def normalize (env : Env) (form s : Obj) : E Obj :=
